@@ -112,6 +112,22 @@ def popStep {β : Type} (g : Line → Option β) (upd : Raw C → β → Raw C) 
 def popEach {β : Type} (g : Line → Option β) (upd : Raw C → β → Raw C) (n : Nat) (s : RSt C) : Option (RSt C) :=
   iter (popStep g upd) n s
 
+/-- `for _ in range(n): rec = data.popleft(); <body that may raise>`: one line popped and handed to `step` per iteration -/
+def popFoldStep (step : Raw C → Line → Option (Raw C)) (s : RSt C) : Option (RSt C) :=
+  match popLine s.1 with
+  | none => none
+  | some (l, d) => match step s.2 l with
+    | none => none
+    | some r => some (d, r)
+
+def popFold (step : Raw C → Line → Option (Raw C)) (n : Nat) (s : RSt C) : Option (RSt C) :=
+  iter (popFoldStep step) n s
+
+/-- `a, b, c = (… for u in line)`: exactly three items (ValueError otherwise) -/
+def three {α : Type} : List α → Option (α × α × α)
+  | [a, b, c] => some (a, b, c)
+  | _ => none
+
 /-- a vertex record handed to `vertices.append`: exactly three coordinates (anything else leaves the modelled domain) -/
 def vec3 : List C → Option (C × C × C)
   | [x, y, z] => some (x, y, z)
